@@ -113,6 +113,17 @@ func c01Entries() []c01Entry {
 		}, true},
 		{"CloneTo", func(in []byte, r *gen.Rand) (*stun.Message, []byte, error) {
 			src := &stun.Message{Raw: in}
+			if r.Chance(1, 20) && c01BigMu.TryLock() {
+				// the source sits in a large read buffer (allocated once, outside every measured window): what CloneTo
+				// allocates follows the message, not that capacity - the allocation bound of the caller judges it
+				defer c01BigMu.Unlock()
+				big := c01Big[:len(in)]
+				copy(big, in)
+				dst := usedMessage(r)
+				err := (&stun.Message{Raw: big}).CloneTo(dst)
+
+				return dst, in, err
+			}
 			if r.Chance(1, 3) {
 				// the source was decoded from other bytes of the same length before its buffer was rewritten in place
 				// (same header, edited body): CloneTo must judge the bytes that are there now
@@ -502,6 +513,12 @@ func c01(c *core.Ctx) {
 		judge(i, r, in, []int{r.Intn(2)})
 	})
 }
+
+// c01Big is a read buffer much larger than any message (capacity 2 MiB), shared under c01BigMu.
+var (
+	c01Big   = make([]byte, 70000, 2<<20) //nolint:gochecknoglobals
+	c01BigMu sync.Mutex                   //nolint:gochecknoglobals
+)
 
 func classBucket(class string) string {
 	if len(class) > 3 && class[:3] == "ok:" {
